@@ -191,7 +191,13 @@ async fn shared() -> Shared {
     let _ = std::fs::remove_dir_all(&path);
     std::fs::create_dir_all(&path).unwrap();
     let events = EventService::new();
-    let (db, _, _) = GraphDatabaseService::start("c20", "ns { Person{ name:String } }", &random32(), &random32(), path.clone(), &Configuration::default(), events.clone()).await.unwrap();
+    let mut tries = 0;
+    let (db, _, _) = loop {
+        match GraphDatabaseService::start("c20", "ns { Person{ name:String } }", &random32(), &random32(), path.clone(), &Configuration::default(), events.clone()).await {
+            Ok(x) => break x,
+            Err(e) => { tries += 1; if tries > 20 { panic!("instance does not start: {}", e); } tokio::time::sleep(std::time::Duration::from_millis(300)).await; }
+        }
+    };
     let (sender, rx) = mpsc::channel::<PeerConnectionMessage>(64);
     Shared { services: DiscretServices { events, database: db, signature_verification: SignatureVerificationService::start(1) }, peers: PeerConnectionService { sender }, _peer_rx: rx, path }
 }
@@ -235,7 +241,7 @@ impl ConnSim {
                     if let Some(r) = st.inbox.pop_front() {
                         LocalPeerService::verif_process_acquired_room(uid_of(r), st.acquired.clone(), st.qs.clone(), svc, sh.peers.clone(), &sh.services).await.unwrap();
                         // the task inserts the room into acquired_lock, then asks the remote for the room definition
-                        match tokio::time::timeout(std::time::Duration::from_secs(3), st.q_rx.recv()).await {
+                        match tokio::time::timeout(std::time::Duration::from_secs(8), st.q_rx.recv()).await {
                             Ok(Some(QueryProtocol { id, query: Query::RoomDefinition(room) })) if room == uid_of(r) => st.running.push((r, id)),
                             _ => self.broken = true,
                         }
@@ -250,7 +256,7 @@ impl ConnSim {
                     let _ = st.a_tx.send(Answer { id, success: false, complete: true, serialized: bincode::serialize(&SyncError::Authorisation("withheld".into())).unwrap() }).await;
                     // the task ends (unlock, then acquired_lock.remove) and drops its handle on acquired_lock
                     let mut ok = false;
-                    for _ in 0..4000 { if Arc::strong_count(&st.acquired) < before { ok = true; break; } tokio::time::sleep(std::time::Duration::from_micros(500)).await; }
+                    for _ in 0..16000 { if Arc::strong_count(&st.acquired) < before { ok = true; break; } tokio::time::sleep(std::time::Duration::from_micros(500)).await; }
                     if !ok { self.broken = true; }
                 }
             }
